@@ -6,6 +6,7 @@ CONSTANTS
   FixedMergeRows = TRUE
 INVARIANT InterExact
 INVARIANT InterSingleNoDup
+INVARIANT InterMultiplicity
 INVARIANT UnionExact
 INVARIANT BoundExact
 INVARIANT BoundContains
